@@ -411,10 +411,14 @@ def _save_im(filename, im, depth=8):
         # place metadata in the 'imagedescription' field of the tiff metadata
         tiffinfo[270] = yaml.dump(metadat, default_flow_style=True)
 
+    # display_image records the scaling it applied; None means that the
+    # caller asked for the values to be stored as they are
+    unscaled = ('_image_scaling' in im.attrs and
+                im.attrs['_image_scaling'] is None)
     im = im.values
     if im.ndim > 2: im = im[0]
 
-    if depth != 'float':
+    if depth != 'float' and not unscaled:
         if depth == 8:
             depth = 8
             typestr = 'uint8'
